@@ -86,7 +86,7 @@ def install():
 
 def model_from(lcf, c):
     spec_types = c['types']
-    m, A = mb.build_model(lcf, spec_types, names=['n zero', 'n1', 'n2'][:len(spec_types)], ids=c['ids'])
+    m, A = mb.build_model(lcf, spec_types, names=['n zero', 'n1', 'n2', 'n3', 'n4', 'n5'][:len(spec_types)], ids=c['ids'])
     for (cls, f1, i, f2, j) in c['links']:
         mb.add_link(m, lcf, cls, f1, [A[x] for x in i], f2, [A[x] for x in j])
     return m, A
@@ -178,6 +178,51 @@ def body_model(cube, **kw):
     return ''
 
 
+def body_twin(cube, **kw):
+    """Language with two associations that share both field names between different type pairs."""
+    b = [bool(kw['b%d' % i]) for i in range(4)]
+    pa, pr = idx(kw['pa'], 6), idx(kw['pr'], 6)
+    with notrace(), reclimit():
+        ing = install()
+        DB.clear()
+        ORDER['assets'], ORDER['rows'] = pa, pr
+        lg, lcf = langs.build_lang(langs.L_TWIN())
+        links = []
+        if b[0]:
+            links.append(('Holds', 'owner', [0], 'items', [1]))
+        if b[1]:
+            links.append(('Carries', 'owner', [2], 'items', [3]))
+        if b[2]:
+            links.append(('Holds', 'owner', [0], 'items', [4]))
+        if b[3]:
+            links.append(('Carries', 'owner', [2], 'items', [3 if not b[1] else 5]))
+        m, A = model_from(lcf, {'types': ['Host', 'Disk', 'Net', 'Packet', 'Disk', 'Packet'], 'ids': [4, 9, 0, 6, -2, 11], 'links': links})
+        ing.ingest_model(m, 'uri', 'user', 'pw', 'db', delete=False)
+        got_rels = sorted((int(r.start_node.get('asset_id')), type(r).__name__, int(r.end_node.get('asset_id'))) for r in DB['db']['rels'])
+        if got_rels != sorted(expected_pairs(m)):
+            return 'ingested relationships %r, linked pairs give %r' % (got_rels, sorted(expected_pairs(m)))
+        try:
+            back = ing.get_model('uri', 'user', 'pw', 'db', lg, lcf)
+        except Exception as e:
+            return 'get_model raised %s: %s' % (type(e).__name__, str(e)[:150])
+        if back is None:
+            return 'get_model returned None'
+
+        def linkset(mm):
+            s = set()
+            for x in mm.associations:
+                f1, f2 = mm.get_association_field_names(x)
+                for a in getattr(x, f1):
+                    for c in getattr(x, f2):
+                        s.add((type(x).__name__,) + tuple(sorted([(str(f1), int(a.id)), (str(f2), int(c.id))])))
+            return s
+        if linkset(back) != linkset(m):
+            return 'get_model reconstructs links %r, ingested model had %r' % (sorted(linkset(back)), sorted(linkset(m)))
+        if sorted((int(a.id), str(a.type)) for a in back.assets) != sorted((int(a.id), str(a.type)) for a in m.assets):
+            return 'get_model reconstructs different assets'
+    return ''
+
+
 def body_graph(cube, **kw):
     from maltoolbox.attackgraph import AttackGraph
     from maltoolbox.attackgraph.analyzers.apriori import calculate_viability_and_necessity
@@ -255,6 +300,9 @@ def queries(tier):
                 bound='3-asset L_INH models (ids 7, 0, -3; first asset G1/G2/Am; bounded subsets of 5 links incl. two associations between the same pair and '
                       'duplicate-named Dup classes, and a self-typed association Chain with an asset linked to itself) ingested into a recording database stub and read back with get_model; result rows returned in an order '
                       'chosen by symbolic picks (asset rows: all 6 permutations; relationship rows: reversal and rotation)'),
+          Query(name='twin', body=body_twin, params=[B('b0'), B('b1'), B('b2'), B('b3'), I('pa', 0, 5), I('pr', 0, 5)], pre=['pa == pr'], timeout=400,
+                witnesses=[({}, {'b0': True, 'b1': True, 'b2': True, 'b3': True, 'pa': 2, 'pr': 2})],
+                bound='language L_TWIN (associations Holds and Carries share both field names): every subset of 4 links over 6 assets, exported and read back'),
           Query(name='graph', body=body_graph, params=[B('l'), I('d', 0, 2), B('an'), B('at'), B('na'), B('rmn'), B('tw')], timeout=400,
                 witnesses=[({}, {'l': True, 'd': 1, 'an': True, 'at': True, 'na': True, 'rmn': True, 'tw': True})],
                 bound='attack graph of a 2-asset L_MINI model (link, defense value, analysis, attacker, an extra node without asset, a node removed so that ids are not dense; exported once, or twice with a state change in between): one database node per '
